@@ -46,7 +46,10 @@ class CallBudget(Exception):
 def gen_plan(rng):
     """A random compile-shaped plan (JSON-able dict).  `rng` is a Hypothesis-backed
     random.Random (st.randoms(use_true_random=False))."""
-    ngroups = rng.choice((0, 1, 1, 1, 1, 2, 2))
+    ngroups = rng.choice((0, 1, 1, 1, 1, 2, 2, 2))
+    # chained: a later group reads members of an earlier one (two hand-written
+    # @Iteration loops, the second consuming the first's result)
+    chained = ngroups == 2 and rng.random() < 0.6
     shapes = []
     used = 0
     for _ in range(ngroups):
@@ -67,16 +70,27 @@ def gen_plan(rng):
             shapes.append(('diamond', size))
             used += size
     nplain = rng.randint(1, MAX_ACTIONS - used)
+    if chained and rng.random() < 0.5:
+        nplain = min(nplain, rng.randint(1, 3))
     ndata = rng.choice((0, 0, 1, 1, 2))
     names = list(NAME_POOL)
     rng.shuffle(names)
     names = names[:used + nplain + ndata]
     data = names[used + nplain:]
     pool = names[:used + nplain]
+    if chained and rng.random() < 0.5:
+        # names in the order of the skeleton: the engine's lexicographic tie-break
+        # then follows the drawn topological order
+        pool.sort()
     # topological skeleton: plain slots and group segments in a drawn order; the last
     # slot is always a plain node (a possible sink / main predicate)
     items = ['p'] * (nplain - 1) + list(range(len(shapes)))
     rng.shuffle(items)
+    if chained and len(shapes) == 2 and rng.random() < 0.5:
+        # the two groups next to each other
+        items = [x for x in items if x != 1]
+        at = items.index(0) + 1
+        items[at:at] = [1]
     items.append('p')
     nodes = []
     groups = []
@@ -115,6 +129,15 @@ def gen_plan(rng):
         ms = g['members']
         first = pos[ms[0]]
         outside = [n for n in nodes[:first] if n not in seg_of] + data
+        earlier = [n for n in nodes[:first] if n in seg_of]
+        if chained and earlier:
+            # results of an earlier loop: usually its last member
+            src = [earlier[-1]] if rng.random() < 0.6 else \
+                rng.sample(earlier, rng.randint(1, min(2, len(earlier))))
+            outside = outside + src
+            forced = src[0]
+        else:
+            forced = None
         if g['mode'] == 'diamond':
             for i, m in enumerate(ms):
                 for a in outside:
@@ -123,6 +146,9 @@ def gen_plan(rng):
                 for a in ms[:i]:
                     if rng.random() < 0.3:
                         edges.append([a, m])
+            if forced is not None and not any(e[0] == forced and e[1] in ms
+                                              for e in edges):
+                edges.append([forced, ms[rng.randrange(len(ms))]])
         else:
             k = len(ms) // 2
             upper, lower = ms[:k], ms[k:]
@@ -133,6 +159,9 @@ def gen_plan(rng):
                         edges.append([a, u])
                         if a not in ext_u:
                             ext_u.append(a)
+            if forced is not None and forced not in ext_u:
+                edges.append([forced, upper[rng.randrange(len(upper))]])
+                ext_u.append(forced)
             for i, l in enumerate(lower):
                 for a in ext_u:
                     if rng.random() < 0.4:
@@ -213,10 +242,10 @@ def validate(plan):
     for gi, g in enumerate(plan['groups']):
         ms = g['members']
         inside = set(ms)
-        for m in ms:
-            for a in req[m]:
-                if a in member_of and member_of[a] != gi:
-                    return 'group requires a member of another group'
+        # a member may read members of ANOTHER group that lies wholly before this one
+        # (edges are forward and groups contiguous, so this holds for every edge
+        # accepted above): two hand-written @Iteration loops, the second consuming
+        # the first's result
         if g['mode'] is None:
             k = len(ms) // 2
             upper, lower = ms[:k], ms[k:]
@@ -494,9 +523,18 @@ def check_log(sp, calls, budget, exc=None, stop_at=None, signalled=()):
                     out.append(('dep_order', '%s ran at %d but its input %s ran at %s; '
                                 'log: %s' % (fmt(a), positions[a][0], fmt(q), qp, seq)))
             elif it.get(q) != it[a]:
+                # an input outside the reader's own group must be complete: a plain
+                # statement has run, ANOTHER iteration group has run its last
+                # repetition (the reader consumes that group's result)
                 if not qp or qp[0] > positions[a][0]:
                     out.append(('dep_order_iterated', 'iterated %s first ran at %d but '
                                 'its outside input %s ran at %s; log: %s' % (
+                                    fmt(a), positions[a][0], fmt(q), qp, seq)))
+                elif qp[-1] > positions[a][0]:
+                    out.append(('dep_order_iterated_input_group_incomplete',
+                                'iterated %s first ran at %d while its input %s, member '
+                                'of another iteration group, still had repetitions to '
+                                'run (ran at %s); log: %s' % (
                                     fmt(a), positions[a][0], fmt(q), qp, seq)))
     # iteration groups
     for g in sp.groups:
@@ -534,6 +572,26 @@ def check_log(sp, calls, budget, exc=None, stop_at=None, signalled=()):
             out.append(('too_many_calls', '%d calls > %d; log: %s' % (
                 len(calls), expected_full_calls(sp), seq)))
     return out
+
+
+def adjacent_dependent(sp, calls):
+    """Label only: in the log, the first statement of a group that reads another group
+    follows a statement of that other group immediately (no statement between them)."""
+    it = iterated(sp)
+    ids = [sp.owner.get(sql) for sql, _ in calls]
+    first = {}
+    for i, a in enumerate(ids):
+        if a in it:
+            first.setdefault(it[a], i)
+    for a, rs in sp.requires.items():
+        if a not in it:
+            continue
+        for q in rs:
+            if q in it and it[q] != it[a]:
+                i = first.get(it[a])
+                if i and ids[i - 1] in it and it[ids[i - 1]] == it[q]:
+                    return True
+    return False
 
 
 def check_result_keys(sp, result):
@@ -576,7 +634,8 @@ def run_plan_case(plan):
                           signalled=(stop.paths if raised else ()))
         info = {'calls': len(r['calls']), 'full': full, 'raised': raised,
                 'actions': len(sp.actions), 'groups': sp.groups,
-                'spec': sp, 'short': len(r['calls']) < full}
+                'spec': sp, 'short': len(r['calls']) < full,
+                'adjacent_dependent': adjacent_dependent(sp, r['calls'])}
         if r['exc'] is None:
             fails += check_result_keys(sp, r['result'])
             # each requested predicate alone gives the same table
@@ -621,6 +680,15 @@ def plan_labels(plan, info):
         ls.append('A:R=%d' % g['R'])
         if g['signal']:
             ls.append('A:group_has_signal')
+    it = iterated(sp)
+    cross = sorted({(it[q], it[a]) for a, rs in sp.requires.items() if a in it
+                    for q in rs if q in it and it[q] != it[a]})
+    if cross:
+        ls.append('A:group_reads_other_group')
+        if any(sp.groups[x]['R'] >= 2 for x, y in cross):
+            ls.append('A:group_reads_other_group_R>=2')
+        if info.get('adjacent_dependent'):
+            ls.append('A:group_reads_other_group_adjacent_in_log')
     ls.append('A:finals=%d' % len(plan['finals']))
     if any(a[1] is False and a[0] in plan['finals'] for a in sp.actions):
         ls.append('A:final_and_intermediate')
